@@ -55,6 +55,7 @@ type Config struct {
 	NoMerge         bool
 	FallbackMs      int        // time allowed to each fallback solver when the primary answers unknown (0: no fallback)
 	FallbackSolvers [][]string // command lines, tried in order
+	FallbackBudget  time.Duration // total time per job spent in fallback solvers (0: unlimited)
 	CrossCheck      int // number of assertion queries per job kept for cross-solver re-checking
 	SlowQuery       time.Duration
 	SlowDir         string
@@ -82,6 +83,7 @@ type Engine struct {
 	queue   [][]Decision
 	active  int
 	stopped bool
+	fallbackSpent time.Duration
 
 	Sum Summary
 }
@@ -210,6 +212,20 @@ func (e *Engine) lookupType(pkgPath, name string) types.Type {
 		}
 	}
 	return nil
+}
+
+// fallbackAllowed: second opinions are rationed per job (a tree whose queries are hopeless for every
+// solver must not cost three time-outs per query).
+func (e *Engine) fallbackAllowed() bool {
+	e.mu.Lock()
+	defer e.mu.Unlock()
+	return e.Cfg.FallbackBudget == 0 || e.fallbackSpent < e.Cfg.FallbackBudget
+}
+
+func (e *Engine) noteFallbackTime(d time.Duration) {
+	e.mu.Lock()
+	e.fallbackSpent += d
+	e.mu.Unlock()
 }
 
 func (e *Engine) noteFallback(solver, verdict string) {
@@ -709,6 +725,7 @@ func (r *Run) wantSample() bool {
 // SetConfig installs a new job configuration (the loaded program and base heap are kept).
 func (e *Engine) SetConfig(c Config) {
 	e.Cfg = c
+	e.fallbackSpent = 0
 	e.resetSummary()
 }
 
